@@ -27,6 +27,7 @@ class QuicPacketSpace:
 
         # sent packets and loss
         self.ack_eliciting_in_flight = 0
+        self.ack_eliciting_sent_time = 0.0
         self.largest_acked_packet = 0
         self.loss_time: Optional[float] = None
         self.sent_packets: dict[int, QuicSentPacket] = {}
@@ -158,6 +159,16 @@ class QuicPacketRecovery:
             or sum(space.ack_eliciting_in_flight for space in self.spaces) > 0
         ):
             timeout = self.get_probe_timeout() * (2**self._pto_count)
+            # the probe timeout runs from the last ack-eliciting packet of the
+            # packet number space which is waiting, traffic in another space
+            # must not postpone it (RFC 9002 section 6.2.1)
+            sent_times = [
+                space.ack_eliciting_sent_time
+                for space in self.spaces
+                if space.ack_eliciting_in_flight > 0
+            ]
+            if sent_times:
+                return min(sent_times) + timeout
             return self._time_of_last_sent_ack_eliciting_packet + timeout
 
         return None
@@ -272,6 +283,7 @@ class QuicPacketRecovery:
         if packet.in_flight:
             if packet.is_ack_eliciting:
                 self._time_of_last_sent_ack_eliciting_packet = packet.sent_time
+                space.ack_eliciting_sent_time = packet.sent_time
 
             # add packet to bytes in flight
             self._cc.on_packet_sent(packet=packet)
